@@ -64,7 +64,7 @@ func c04eom(p *Program, r *Report, rule string) {
 		return
 	}
 	p.runTable(r, tableSpec{
-		Rule: rule, Fn: fn,
+		Rule: rule, Fn: fn, Inline: p.inlineSet("msgReader.discardRest"), Unroll: 1,
 		Atoms: []Atom{boolAtom("msgReader.fin"), intAtom("msgReader.payloadLength", candidates(intConstsCompared(fn), 0, 1, 7)), boolAtom("msgReader.flate")},
 		Decide: func(v Valuation) func(string, AV) (bool, bool) {
 			return func(key string, cond AV) (bool, bool) {
@@ -75,6 +75,9 @@ func c04eom(p *Program, r *Report, rule string) {
 			}
 		},
 		Classify: func(v Valuation, pa *Path) string {
+			if pa.End == "loop" || pa.End == "loop-in-inline" {
+				return "" // one more round of the drain loop (C04.eom.final): the rows are about what is returned
+			}
 			if pa.End != "return" {
 				return pa.End
 			}
@@ -124,6 +127,48 @@ func c04eom(p *Program, r *Report, rule string) {
 			return []string{"ERR"}
 		},
 		What: "a clean end of message (io.EOF) is reported only in the state 'final frame received, no payload outstanding'; in every other state an error from below stays an error",
+	})
+	// a DEFLATE stream may end in a block marked final (RFC 7692 §7.2.3.4) before the frames of the message are exhausted
+	// (padding in a later fragment, an empty final fragment, payload beyond the decompressor's read-ahead): the rest of the
+	// message has to be consumed, otherwise the message is lost and the frame stream is out of step
+	p.runTable(r, tableSpec{
+		Rule: rule + ".final", Fn: fn, Unroll: 1, Inline: p.inlineSet("msgReader.discardRest"),
+		Atoms: []Atom{boolAtom("msgReader.fin"), intAtom("msgReader.payloadLength", []int64{0, 7}), boolAtom("msgReader.flate")},
+		Decide: func(v Valuation) func(string, AV) (bool, bool) {
+			return func(key string, cond AV) (bool, bool) {
+				if strings.HasPrefix(key, "(call:mu.lock@") {
+					return true, true
+				}
+				k := stripSites(key)
+				// the decompressor reported a bare io.EOF: the end of a final block
+				if k == "(G:io.EOF == call:limitReader.Read#1)" || k == "(call:limitReader.Read#1 == G:io.EOF)" {
+					return true, true
+				}
+				if k == "(call:limitReader.Read#1 == nil)" {
+					return false, true
+				}
+				return false, false
+			}
+		},
+		Classify: func(v Valuation, pa *Path) string {
+			li := eventIndex(pa, 0, func(e *Event) bool { return isCall(e, "limitReader.Read") })
+			if li < 0 {
+				return ""
+			}
+			for _, e := range pa.Events[li+1:] {
+				if isCall(e, "msgReader.read") || e.Kind == "inline-enter" && e.Callee == "msgReader.read" {
+					return "DRAINS-THE-REST"
+				}
+			}
+			return "NO-DRAIN"
+		},
+		Oracle: func(v Valuation) []string {
+			if v.Bool("msgReader.flate") && !(v.Bool("msgReader.fin") && v.Int("msgReader.payloadLength") == 0) {
+				return []string{"DRAINS-THE-REST"}
+			}
+			return []string{"NO-DRAIN"}
+		},
+		What: "when the decompressor reports the end of its stream (bare io.EOF: a final block) while frames or payload of the message are outstanding, msgReader.Read reads the rest of the message (through msgReader.read) before it reports anything; in the state 'final frame read in full' and for uncompressed messages nothing is drained",
 	})
 	// the count returned is the underlying read's count
 	p.forAllPaths(r, rule+".count", fn, "returned count", Opts{}, "Read returns the count of limitReader.Read (or 0 when the lock failed)", func(pa *Path) (bool, string) {
@@ -354,6 +399,8 @@ func runC06(p *Program, r *Report) {
 	cReasons(p, r, "C06.reasons")
 	c03ctl(p, r, "C06.recv")
 	c03closepayload(p, r, "C06.parse")
+	c06closereadYield(p, r, "C06.closeread")
+	c03fail(p, r, "C06.fail")
 }
 
 // varargsOf returns the values stored into the variadic slice passed as the last argument of ev.
@@ -417,6 +464,14 @@ func c06echo(p *Program, r *Report, rule string) {
 			}
 			if len(wc) != 1 {
 				return false, fmt.Sprintf("%d writeClose calls", len(wc))
+			}
+			// the echo is bounded by the read's context (handleControl's ≤5 s child of it), not by a fresh Background + 5 s:
+			// otherwise a Close that waits for this frame exceeds its bound and a Read ignores its context while the echo blocks
+			{
+				wt := pa.Calls("context.WithTimeout")
+				if wc[0].Val == nil || len(wt) == 0 || wc[0].Val.Key() != wt[0].Res.Key()+"#0" || argKey(wt[0], 0) != "param:ctx" {
+					return false, "the echo is not written under handleControl's bounded child of the caller's context (a fresh Background + 5 s instead)"
+				}
 			}
 			ce := "call:parseClosePayload@" // prefix
 			if !(strings.HasPrefix(argKey(wc[0], 1), ce) && strings.HasSuffix(argKey(wc[0], 1), "#0.Code") && strings.HasSuffix(argKey(wc[0], 2), "#0.Reason")) {
